@@ -735,3 +735,74 @@ class Interp:
                 args, kwargs = self.args_of(ev, c)
                 return self._native_call(target, args, kwargs, c)
         return NotImplemented
+
+
+class RealMethods:
+    """Base of stand-in objects whose *methods are the methods of the real class*, evaluated by the interpreter.
+
+    The attributes are whatever the scenario (or an evaluated ``__init__``) assigns; a method call on the stand-in is
+    routed to the FuncInfo of the real class (so helpers the class is factored into are followed automatically), a
+    property of the real class is evaluated through its getter and assigned through its setter.
+    """
+
+    _methods: Dict[str, Any] = {}
+    _getters: Dict[str, Any] = {}
+    _setters: Dict[str, Any] = {}
+    _it = None
+
+    def __getattribute__(self, name):
+        if not (name.startswith("__") and name.endswith("__")):
+            cls = type(self)
+            if name in cls._getters:
+                return cls._it.call(cls._getters[name], [], {}, selfobj=self)
+            if name in cls._methods:
+                return _BoundReal(cls._it, cls._methods[name], self)
+        return object.__getattribute__(self, name)
+
+    def __setattr__(self, name, value):
+        cls = type(self)
+        if name in cls._setters:
+            cls._it.call(cls._setters[name], [value], {}, selfobj=self)
+            return
+        if name in cls._getters:
+            raise AttributeError(name)
+        object.__setattr__(self, name, value)
+
+
+class _BoundReal:
+    def __init__(self, it, fn, obj):
+        self.it, self.fn, self.obj = it, fn, obj
+
+    def __call__(self, *a, **k):
+        return self.it.call(self.fn, list(a), dict(k), selfobj=self.obj)
+
+    def __eq__(self, other):
+        return isinstance(other, _BoundReal) and other.fn is self.fn and other.obj is self.obj
+
+    def __hash__(self):
+        return hash((id(self.fn), id(self.obj)))
+
+
+def real_methods_class(name: str, prog, classinfo, it, bases=(), skip=()):
+    """A stand-in class for ``classinfo`` (methods and properties of the whole MRO inside the package)."""
+    methods, getters, setters = {}, {}, {}
+    chain = [classinfo]
+    seen = set()
+    while chain:
+        ci = chain.pop(0)
+        if id(ci) in seen:
+            continue
+        seen.add(id(ci))
+        for mname, fns in ci.methods.items():
+            if mname in skip:
+                continue
+            for fn in fns:
+                decos = [d.split("(")[0] for d in (fn.decorators or [])]
+                if any(d == "property" or d.endswith(".getter") for d in decos):
+                    getters.setdefault(mname, fn)
+                elif any(d.endswith(".setter") for d in decos):
+                    setters.setdefault(mname, fn)
+                elif mname not in getters:
+                    methods.setdefault(mname, fn)
+        chain.extend(b for b in ci.bases if isinstance(b, ClassInfo))
+    return type(name, tuple(bases) + (RealMethods,), {"_methods": methods, "_getters": getters, "_setters": setters, "_it": it})
